@@ -235,6 +235,55 @@ theorem trie_insert_keeps_prefix_nodes :
     ∃ c' h', trieInsert (fun k => k == 1) {} "ab" {} = .ok (c', false, h') ∧ h'.mem = 1 ∧ c'.owned = 1 := by
   refine ⟨_, _, rfl, rfl, rfl⟩
 
+/-! ## The quantifier of the property, literally: exactly the k-th acquisition fails; and the
+converse of "reported": growth fails only for a reason -/
+
+/-- `muggle_memory_pool_ensure_space` fails only for a reason: a fault, or a fixed-size pool -/
+theorem muggle_memory_pool_ensure_space_succeeds_without_fault (f : Sched) (p : MPool) (c : Nat) (h : Heap) (hp : p.wf)
+    (hflag : p.flag % 2 = 0) (hc : Clean f h.nacq 3) :
+    ∃ p' h', mpoolEnsure f p c h = .ok (p', true, h') := by
+  obtain ⟨hb, hq⟩ := hp
+  simp only [clean_succ, clean_zero] at hc
+  obtain ⟨c0, c1, c2, _⟩ := hc
+  unfold mpoolEnsure
+  by_cases h1 : c ≤ p.cap
+  · exact ⟨p, h, by simp [h1]⟩
+  · have h2 : ¬ p.flag % 2 = 1 := by omega
+    simp [h1, h2, alloc, free, deref, c0, c1, c2, hb, hq, bind, Except.bind, pure, Except.pure]
+
+theorem array_container_ensure_succeeds_without_fault (f : Sched) (a : Arr) (c : Nat) (h : Heap) (ha : a.wf)
+    (hv : dsCapValid c = true) (hc : Clean f h.nacq 1) :
+    ∃ a' h', arrEnsure f a c h = .ok (a', true, h') := by
+  have hw : a.p = .own := ha
+  simp only [clean_succ, clean_zero] at hc
+  obtain ⟨c0, _⟩ := hc
+  unfold arrEnsure
+  by_cases h1 : a.cap ≥ c
+  · exact ⟨a, h, by simp [h1]⟩
+  · by_cases hs : a.size > 0 <;>
+    simp [h1, hv, alloc, free, deref, c0, hw, hs, bind, Except.bind, pure, Except.pure]
+
+/-- exactly the `k`-th acquisition (0-based) fails -/
+def singleFault (k : Nat) : Sched := fun i => i == k
+
+theorem single_fault_constructor {α : Type} {built empty : α} {m fd : Int} {n : Nat} {k : Nat} {h : Heap}
+    {r : Except Err (α × Bool × Heap)}
+    (c : InitContract built empty m fd n (singleFault (h.nacq + k)) h r) :
+    (k < n → ∃ h', r = .ok (empty, false, h') ∧ h'.mem = h.mem ∧ h'.fds = h.fds) ∧
+    (n ≤ k → r = .ok (built, true, Grow h m fd n)) := by
+  constructor
+  · intro hk
+    have : ¬ Clean (singleFault (h.nacq + k)) h.nacq n := by
+      intro hc
+      have := hc k hk
+      simp [singleFault] at this
+    obtain ⟨h', hr, hf⟩ := c.2 this
+    exact ⟨h', hr, hf.1, hf.2.1⟩
+  · intro hk
+    apply c.1
+    intro i hi
+    simp [singleFault]
+    omega
 /-! ## Clause 3 — after a failure the object is safe to destroy and to retry
 
 A failed constructor returns the empty object; its destructor is then a no-op without `Err`.
@@ -324,6 +373,14 @@ example : chanInit (fun k => k == 2) true true true {} = .ok ({}, false, { nacq 
 /-- no fault: four blocks live, all fields owned -/
 example : chanInit (fun _ => false) true true true {} =
     .ok ({ wm := .own, rm := .own, rc := .own, blocks := .own }, true, { mem := 4, nacq := 4 }) := rfl
+
+/-- single-fault enumeration of a channel constructor: positions 0..3 fail cleanly, position 4 is
+not reached -/
+example : ∀ k, k < 5 → ∃ ok h', chanInit (singleFault k) true true true {} = .ok (if ok then chanBuilt true true else {}, ok, h') ∧
+    ok = decide (4 ≤ k) ∧ h'.mem = (if ok then 4 else 0) := by
+  intro k hk
+  have : k = 0 ∨ k = 1 ∨ k = 2 ∨ k = 3 ∨ k = 4 := by omega
+  rcases this with rfl | rfl | rfl | rfl | rfl <;> exact ⟨_, _, rfl, rfl, rfl⟩
 
 /-- an epoll loop with node pool needs ten acquisitions; failing the tenth undoes the other nine -/
 example : ∃ h', evloopNew (fun k => k == 9) 3 true 4 64 {} = .ok ({}, false, h') ∧
